@@ -41,7 +41,6 @@ Definition spec_step (a : list N) (now : N) (e : fev) (gouts : list gout) (l : l
   | FUp b rty _ =>
       (if addr_eqb a b then answer_first now rty l else l) ++ transmitted now (flat_map (released_to a) gouts)
   | FReset => []
-  | FExpire => l ++ transmitted now (flat_map (released_to a) gouts)   (* the timer transmits held requests *)
   | _ => l
   end.
 
